@@ -6,19 +6,20 @@ import Ecal.Lemmas.EvalNew
 /-!
 # C05 — lexical scoping, functions, containers and objects
 
-Theorems about the functions of `Model/Eval.lean` (scope chain: `scopeFor`, `lookupVar`, `setValue`,
-`setLocalValue`; heap: `mapStore`, `mapFieldLookup`) and `Model/EvalObjects.lean` (`paramValue`,
-`bindParams`: the frame construction of `function.Run`) that the executable evaluator runs, stated on
-`runM m st` = result and final state of a computation.  `St.chain st f sc` is the scope `sc` followed by
-its ancestors, `St.nearest st sc v` the first scope on that chain that defines `v`.
+Theorems about the functions of `Model/Eval.lean` that the executable evaluator runs — scope chain (`scopeFor`,
+`lookupVar`, `setValue`, `setLocalValue`), heap (`mapStore`, `mapFieldLookup`, `appendVals`), call frames
+(`buildFrame`, `bindParamNodes`), builtins (`lenB`, `addB`, `insertAt`, `delB`, `concatB`) and objects (`copyProp(s)`,
+`superLoop`, `addSuperClasses`, `newB`) — stated on `runM m st` = result and final state of a computation.
+`St.chain st f sc` is the scope `sc` followed by its ancestors, `St.nearest st sc v` the first scope on that chain
+that defines `v`; `St.elems st r l` the elements of the slice `.list r l`, `St.entries st r` the entries of map `r`.
+`runFunction_uses_buildFrame`, `runBuiltin_uses`, `addSuperClasses_order`, `superLoop_order` are the unfolding
+equations that tie the mutual evaluator to these functions.
 
-Proved here: len_add_del_model (incl. append aliasing), full call frames on `buildFrame` (which `runFunction` calls),
-objects partially (copy loop, bound methods, init once), call_does_not_write_enclosing_frames, lookup_nearest, assign_nearest_or_local, let_local, inner_not_visible_outside,
-call_fresh_locals_partial (frame = fresh index), closure_sees_definition_scope_partial (chain of a frame),
-args_missing_default_extra_ignored, prims_by_value_containers_by_ref (aliasing through the heap cell),
-read_after_write (one map cell, number and string keys) and read_after_write_paths (any nesting, acyclic
-tree values).  Only tested by the correspondence run (no theorem): len/add/del/concat against Go slices,
-`new` (template + super properties), `this` in methods, `init` once with arguments and super inits.
+Proved: lookup_nearest, assign_nearest_or_local, let_local, inner_not_visible_outside, call_fresh_locals,
+closure_sees_definition_scope, call_does_not_write_enclosing_frames, args_missing_default_extra_ignored,
+prims_by_value_containers_by_ref, read_after_write (+ _list, _paths), len_add_del_model, add_insert_concat_model,
+new_has_all_template_props (transitive), own_property_wins, method_this, init_once_with_args,
+init_once_with_args_and_supers, init_reads_super, addSuperClasses_no_fuel.  Hypotheses are listed with each theorem.
 -/
 namespace Ecal.Props.C05
 open Ecal.Ev Ecal.Obj
@@ -340,7 +341,7 @@ theorem method_this_partial (obj : Nat) (initSuper : List Val) (k nv : Val) (id 
     ∃ fr sup, st.funcs[id]? = some fr ∧ nv = .func st.funcs.size ∧
       st'.funcs[st.funcs.size]? = some { fr with this := some (.map obj), super := sup } := by
   have cr := copyProp_spec obj initSuper k (.func id) nv st st' ho h
-  obtain ⟨fr, sup, h1, h2, h3⟩ := cr.bound id rfl
+  obtain ⟨fr, sup, h1, h2, h3, _, _⟩ := cr.bound id rfl
   exact ⟨cr.stored, fr, sup, h1, h2, by rw [h3]; simp⟩
 
 /-- `new` runs the `init` held by the finished object exactly ONCE, with the constructor arguments after the
@@ -363,6 +364,124 @@ theorem init_once_with_args (runInit : Nat → List Val → M Val) (tr id : Nat)
 example : ∃ r s1, runM (addSuperClasses 200 1 0)
     { maps := #[[(.str initName, .func 0)], []], funcs := #[⟨"", default, 0, none, none⟩] } = (.ok r, s1) ∧
     mapLookup (s1.entries 1) (.str initName) = some (.func 1) := ⟨_, _, rfl, rfl⟩
+
+/-- add(l, v, i) and concat against the slice model:
+    * `add(l, v, i)`: index outside `0 ≤ i ≤ len` is an error; otherwise the old elements with `v` inserted before
+      position `i` — in the SAME backing array when the capacity suffices (the tail from `i` is shifted in place:
+      only aliases of length ≤ `i` keep their elements; capacity unchanged), else in a NEW array (the old array and
+      all its aliases unchanged); no other array changes;
+    * `concat(l1, …)`: fewer than two arguments or a non-list argument is an error; otherwise the elements of all
+      arguments in order, in a NEW array (index ≥ the old store size): no existing array — no argument, no alias —
+      changes. -/
+theorem add_insert_concat_model :
+    (∀ r l v x i st, runM (goInt x) st = (.ok i, st) → isIntegral x = true →
+      runM (addB [.list r l, v, .num x]) st =
+        if i < 0 || i > (l : Int) then (.error (plain "Out of bounds access to list"), st)
+        else runM (insertAt r l v i.toNat) st) ∧
+    (∀ r l i v st st' res, r < st.lists.size → l ≤ (st.backing r).length → i ≤ l →
+      runM (insertAt r l v i) st = (.ok res, st') →
+      ∃ r', res = .list r' (l + 1) ∧
+        st'.elems r' (l + 1) = (st.elems r l).take i ++ [v] ++ (st.elems r l).drop i ∧
+        (∀ q, q ≠ r' → st'.backing q = st.backing q) ∧
+        ((r' = r ∧ (st'.backing r).length = (st.backing r).length ∧ ∀ l2, l2 ≤ i → st'.elems r l2 = st.elems r l2) ∨
+         (r' = st.lists.size ∧ ∀ l2, st'.elems r l2 = st.elems r l2))) ∧
+    (∀ args st st' res, (∀ a ∈ args, ∃ r l, a = Val.list r l ∧ r < st.lists.size) →
+      runM (concatB args) st = (.ok res, st') →
+      ∃ r' l', res = .list r' l' ∧ st.lists.size ≤ r' ∧ st'.elems r' l' = args.flatMap st.elemsOf ∧
+        ∀ q, q < st.lists.size → st'.backing q = st.backing q) ∧
+    (∀ args st, args.length < 2 → runM (concatB args) st = (.error (plain "Need at least two lists as parameters"), st)) ∧
+    (∀ a rest cur, (∀ r l, a ≠ Val.list r l) → concatGo (a :: rest) cur = throw (plain "Parameter 1 should be a list")) :=
+  ⟨add_insert_run, fun r l i v st st' res hr hl hi h => insertAt_model r l i v st st' res hr hl hi h,
+   concat_model, concat_fewArgs, concat_notList⟩
+
+example : ∃ st', runM (insertAt 1 2 (.bool true) 1) { lists := #[[], [.null, .null]] } = (.ok (.list 2 3), st') := ⟨_, rfl⟩
+example : ∃ r st', runM (concatB [.list 1 1, .list 1 1]) { lists := #[[], [.null]] } = (.ok (.list r 2), st') := ⟨_, _, rfl⟩
+
+/-- the loop over the "super" list, in list order: a map element is added to the object by `rec` (its init is
+    appended to the collected list, its error replaces the error variable), any other element is skipped -/
+theorem superLoop_order (rec : Nat → M (Val × Option Sig)) (sr : Nat) (rest : List Val) (err : Option Sig) (acc : List Val) :
+    superLoop rec [] err acc = pure (err, acc) ∧
+    superLoop rec (.map sr :: rest) err acc = (do let (si, e) ← rec sr; superLoop rec rest e (acc ++ [si])) ∧
+    (∀ a, (∀ r, a ≠ Val.map r) → superLoop rec (a :: rest) err acc = superLoop rec rest err acc) := by
+  refine ⟨rfl, rfl, ?_⟩
+  intro a ha
+  cases a <;> first | rfl | (exfalso; exact ha _ rfl)
+
+/-- Cycles in the super graph: every level of super templates costs one unit of fuel (`addSuperClasses_order` calls
+    `addSuperClasses f` for the supers of `addSuperClasses (f+1)`), and without fuel the outcome is `Sig.fuel` — `new`
+    starts with 200, so a template that reaches itself through "super" ends the model run as `HANG`.  (The Go code
+    recurses without bound on such a cyclic container: stack overflow.) -/
+theorem addSuperClasses_no_fuel (obj tr : Nat) : addSuperClasses 0 obj tr = throw Sig.fuel := rfl
+
+/-- `new` — all templates.  Start: the state `s0` in which the fresh, empty object `obj` has just been allocated
+    (`newB`), slot 0 of the list store being the nil slice.  After a successful `addSuperClasses`:
+    every string key of the template and of every super template reachable through the "super" lists (`TKey`,
+    transitively) is a key of the object; and the template's OWN non-function property is what the object holds
+    (own template over supers).  Among the supers the list order decides: they are copied one after the other
+    (`superLoop_order`), every copy overwrites (`mapStore`), so a LATER super wins over an earlier one
+    (`own_property_wins` per copy step). -/
+theorem new_has_all_template_props (st : St) (tr : Nat) (res : Val × Option Sig) (s1 : St)
+    (h0 : st.backing 0 = []) (hsz : 0 < st.lists.size)
+    (hadd : runM (addSuperClasses 200 st.maps.size tr) { st with maps := st.maps.push [] } = (.ok res, s1)) :
+    (∀ key, TKey { st with maps := st.maps.push [] } st.maps.size 200 tr key →
+      hasKey (s1.entries st.maps.size) (.str key) = true) ∧
+    (∀ key v, tr ≠ st.maps.size → (Val.str key, v) ∈ ({ st with maps := st.maps.push [] } : St).entries tr → isFunc v = false →
+      (∀ k w, (k, w) ∈ ({ st with maps := st.maps.push [] } : St).entries tr → keyEq k (.str key) = true → w = v) →
+      mapLookup (s1.entries st.maps.size) (.str key) = some v) := by
+  have hfill : Filling { st with maps := st.maps.push [] } st.maps.size { st with maps := st.maps.push [] } :=
+    ⟨by simp, rfl, fun _ _ => rfl, listsKept_refl _ _⟩
+  have ar := addSuperClasses_keys { st with maps := st.maps.push [] } st.maps.size h0 hsz 200 tr _ s1 res hfill hadd
+  exact ⟨ar.keys, ar.ownWins⟩
+
+/-- non-vacuity: template 1 = {"super": [template 0]}, template 0 = {"k": null}; key "k" is reachable -/
+example : TKey { maps := #[[(.str [107], .null)], [(.str superName, .list 1 1)], []], lists := #[[], [.map 0]] } 2 200 1 [107] :=
+  TKey.sup 199 1 1 1 0 [107] (by decide) rfl (by decide) (by simp [St.elems, St.backing]) (TKey.own 198 0 [107] .null (by decide) (by simp [St.entries]))
+
+/-- A method invoked through the object reads `this` = the object cell (by reference): the function stored in the
+    object is bound to `.map obj` (`method_this_partial`), `runFunction` builds its frame with `buildFrame`
+    (`runFunction_uses_buildFrame`), and in the finished frame the nearest definition of `this` is the frame itself,
+    holding `.map obj` (what a read yields: `lookup_nearest`).  Hypothesis: no parameter is itself called `this` —
+    parameters are written after `this`, so such a parameter's value would replace it. -/
+theorem method_this (ev : Ecal.Parse.Node → M Val) (fr : FuncRec) (params : List (Option Ecal.Parse.Node)) (args : List Val)
+    (st st' : St) (fvs obj : Nat) (hthis : fr.this = some (.map obj))
+    (hav : ParamsAvoid (bytesToString thisName) params) (hev : DefaultKeepsFrame ev st.scopes.size)
+    (h : runM (buildFrame ev fr params args) st = (.ok fvs, st')) :
+    st'.nearest fvs (bytesToString thisName) = some fvs ∧ st'.valueIn fvs (bytesToString thisName) = .map obj := by
+  have := buildFrame_this ev fr params args st st' fvs (.map obj) hthis hav hev h
+  exact ⟨this.2.2.2, this.2.2.1⟩
+
+/-- `init`'s `super` is the list of the collected super inits, in order: when the function under "init" is copied
+    and something was collected (`initSuper ≠ []`, built by `superLoop` in list order, see `superLoop_order`), the
+    new function record carries `super = ` a list value whose elements are exactly `initSuper`; with nothing
+    collected it carries none.  In the frame of that init the nearest `super` is the frame's own, holding that
+    list (`init_reads_super`).  Together with `init_once_with_args`. -/
+theorem init_once_with_args_and_supers (obj : Nat) (initSuper : List Val) (id : Nat) (nv : Val) (st st' : St)
+    (ho : obj < st.maps.size) (h0 : st.backing 0 = []) (hsz : 0 < st.lists.size)
+    (h : runM (copyProp obj initSuper (.str initName) (.func id)) st = (.ok nv, st')) :
+    ∃ fr sup, st.funcs[id]? = some fr ∧ nv = .func st.funcs.size ∧
+      st'.funcs[st.funcs.size]? = some { fr with this := some (.map obj), super := sup } ∧
+      (initSuper ≠ [] → ∃ r l, sup = some (.list r l) ∧ st'.elems r l = initSuper) ∧
+      (initSuper = [] → sup = none) := by
+  have cr := copyProp_spec obj initSuper (.str initName) (.func id) nv st st' ho h
+  obtain ⟨fr, sup, h1, h2, h3, h4, h5⟩ := cr.bound id rfl
+  refine ⟨fr, sup, h1, h2, by rw [h3]; simp, ?_, ?_⟩
+  · intro hne
+    apply h4 _ h0 hsz
+    cases initSuper with
+    | nil => exact absurd rfl hne
+    | cons a b => simp [keyEq]
+  · intro he
+    apply h5
+    subst he
+    simp
+
+theorem init_reads_super (ev : Ecal.Parse.Node → M Val) (fr : FuncRec) (params : List (Option Ecal.Parse.Node)) (args : List Val)
+    (st st' : St) (fvs : Nat) (sl : Val) (hsuper : fr.super = some sl)
+    (hav : ParamsAvoid (bytesToString superName) params) (hev : DefaultKeepsFrame ev st.scopes.size)
+    (h : runM (buildFrame ev fr params args) st = (.ok fvs, st')) :
+    st'.nearest fvs (bytesToString superName) = some fvs ∧ st'.valueIn fvs (bytesToString superName) = sl := by
+  have := buildFrame_super ev fr params args st st' fvs sl hsuper hav hev h
+  exact ⟨this.2.2.2, this.2.2.1⟩
 
 /-- Any nesting (maps with number and string keys, lists with negative indices) on acyclic tree values: a
     successful write through a flattened access path is read back through the same path. -/
